@@ -1,5 +1,536 @@
-use super::*; use crate::H; use elliptic_curve::hash2curve::ExpandMsg; use zkryptium::bbsplus::ciphersuites::BbsCiphersuite;
-pub fn c07<CS: BbsCiphersuite>(_h: &mut H) where CS::Expander: for<'a> ExpandMsg<'a> {}
-pub fn c10<CS: BbsCiphersuite>(_h: &mut H) where CS::Expander: for<'a> ExpandMsg<'a> {}
-pub fn c11<CS: BbsCiphersuite>(_h: &mut H) where CS::Expander: for<'a> ExpandMsg<'a> {}
-pub fn corpus<CS: BbsCiphersuite>(_h: &mut H) where CS::Expander: for<'a> ExpandMsg<'a> {}
+// C07 (fresh blinding), C10 (conformance battery + threads), C11 (domain separation), corpus
+use super::gen_blind::{honest_blind_proof, honest_issue};
+use super::gen_proof::{honest_proof, rand_tape};
+use super::*;
+use crate::ops::*;
+use crate::H;
+use bls12_381_plus::Scalar;
+use elliptic_curve::hash2curve::ExpandMsg;
+use std::collections::{BTreeMap, HashSet};
+use zkryptium::bbsplus::ciphersuites::BbsCiphersuite;
+use zkryptium::bbsplus::commitment::BlindFactor;
+use zkryptium::bbsplus::keys::BBSplusPublicKey;
+use zkryptium::keys::pair::KeyPair;
+use zkryptium::schemes::algorithms::BBSplus;
+use zkryptium::utils::message::bbsplus_message::BBSplusMessage;
+use zkryptium::verif_hooks;
+
+fn sc(b: &[u8]) -> Scalar {
+    Scalar::from_be_bytes(&b.try_into().unwrap()).unwrap()
+}
+
+struct Transcript {
+    points: Vec<Vec<u8>>,  // Abar, Bbar, D (or the commitment)
+    blindings: Vec<Scalar>, // recomputed with the witness
+    tape: Vec<Vec<u8>>,
+}
+
+/// recompute the proof blindings with the witness: e~ = e^ - e c, m~_j = m^_j - m_j c
+fn proof_transcript(pb: &[u8], e: &Scalar, hidden: &[Scalar], draws: &[verif_hooks::Draw]) -> Transcript {
+    let n = (pb.len() - 144) / 32;
+    let s: Vec<Scalar> = (0..n).map(|k| sc(&pb[144 + 32 * k..176 + 32 * k])).collect();
+    let c = s[n - 1];
+    let mut bl = vec![s[0] - *e * c];
+    for (j, m) in hidden.iter().enumerate() {
+        bl.push(s[3 + j] - *m * c);
+    }
+    Transcript {
+        points: vec![pb[0..48].to_vec(), pb[48..96].to_vec(), pb[96..144].to_vec()],
+        blindings: bl,
+        tape: draws.iter().map(|d| d.value.clone()).collect(),
+    }
+}
+
+fn monitors(h: &mut H, what: &str, ts: &[Transcript], hidden_windows: &[Vec<u8>], encodings: &[Vec<u8>]) {
+    let mut seen_pts: HashSet<Vec<u8>> = HashSet::new();
+    let mut seen_bl: HashSet<[u8; 32]> = HashSet::new();
+    let mut seen_tape: HashSet<Vec<u8>> = HashSet::new();
+    let mut tops: HashSet<u64> = HashSet::new();
+    let mut nbl = 0usize;
+    for t in ts {
+        for p in &t.points {
+            let fresh = seen_pts.insert(p.clone());
+            h.expect(fresh, "C07.repeat_point", &format!("{}: a group element repeated across generations", what), &[]);
+        }
+        for b in &t.blindings {
+            nbl += 1;
+            h.expect(*b != Scalar::ZERO, "C07.zero_blinding", &format!("{}: a blinding scalar is zero", what), &[]);
+            let fresh = seen_bl.insert(b.to_be_bytes());
+            h.expect(fresh, "C07.repeat_blinding", &format!("{}: a blinding scalar repeated within or across transcripts", what), &[]);
+            tops.insert(u64::from_be_bytes(b.to_be_bytes()[..8].try_into().unwrap()));
+        }
+        for d in &t.tape {
+            let fresh = seen_tape.insert(d.clone());
+            h.expect(fresh, "C07.repeat_draw", &format!("{}: a random draw repeated", what), &[]);
+        }
+    }
+    // spread of the top 64 bits (catches counters, small constants, fixed seeds with few outputs)
+    h.expect(nbl < 8 || tops.len() * 10 >= nbl * 9, "C07.low_entropy", &format!("{}: blinding scalars cluster in their top 64 bits", what), &[]);
+    for enc in encodings {
+        for w in hidden_windows {
+            let found = enc.windows(w.len()).any(|x| x == &w[..]);
+            h.expect(!found, "C07.exposed", &format!("{}: an encoding contains a hidden scalar / A / e", what), &[]);
+        }
+    }
+    h.stat_n(&format!("C07.{}.transcripts", what), ts.len() as u64);
+}
+
+pub fn c07<CS: BbsCiphersuite>(h: &mut H)
+where
+    CS::Expander: for<'a> ExpandMsg<'a>,
+{
+    let thorough = h.tier_thorough;
+    let n = if thorough { 400 } else { 32 };
+    let (sk, pk) = rand_keypair::<CS>(h);
+    let l = 4usize;
+    let msgs = rand_msgs(h, l);
+    let hdr = rand_header(h);
+    let s = sign::<CS>(h, &sk, &pk, hdr.as_deref(), Some(&msgs)).ok().expect("sign");
+    let sb = s.to_bytes();
+    let e = s.e();
+    let ms = BBSplusMessage::messages_to_scalar::<CS>(&msgs, CS::API_ID).unwrap();
+    let d = vec![1usize];
+    let hidden: Vec<Scalar> = [0usize, 2, 3].iter().map(|&i| ms[i].value).collect();
+    let mut windows: Vec<Vec<u8>> = hidden.iter().map(|x| x.to_be_bytes().to_vec()).collect();
+    windows.push(e.to_be_bytes().to_vec());
+    windows.push(sb[..48].to_vec());
+
+    // (a) identical inputs, one thread, production RNG (record mode); every proof also goes to
+    // the model with its recorded tape, which shows that ALL randomness reaching the output went
+    // through the recorded draws
+    let mut ts = Vec::new();
+    let mut encs = Vec::new();
+    for k in 0..n {
+        let ph = if k % 2 == 0 { None } else { Some(vec![k as u8]) };
+        let (p, draws) = proofgen::<CS>(h, &pk, &sb, hdr.as_deref(), ph.as_deref(), Some(&msgs), Some(&d), vec![]);
+        let id = h.last();
+        let p = match p.ok() { Some(p) => p, None => { h.expect(false, "C07.gen", "proof_gen failed", &[id]); continue; } };
+        h.expect(draws.iter().all(|x| x.value == x.natural), "C07.tape", "record mode altered a draw", &[id]);
+        let pb = p.to_bytes();
+        let t = proof_transcript(&pb, &e, &hidden, &draws);
+        // the recomputed blindings are exactly the draws used in those roles
+        let ok_roles = draws.len() == 5 + hidden.len()
+            && t.blindings[0].to_be_bytes()[..] == draws[2].value[..]
+            && (0..hidden.len()).all(|j| t.blindings[1 + j].to_be_bytes()[..] == draws[5 + j].value[..]);
+        h.expect(ok_roles, "C07.roles", "recomputed blindings are not the drawn scalars", &[id]);
+        ts.push(t);
+        encs.push(pb);
+    }
+    monitors(h, "proof_same_inputs", &ts, &windows, &encs);
+
+    // (b) 16 threads, identical inputs (unlogged runs; each is then replayed with its own tape)
+    let per = if thorough { 16 } else { 3 };
+    let mut handles = Vec::new();
+    for _ in 0..16 {
+        let (pk2, sb2, hdr2, msgs2, d2) = (pk.clone(), sb, hdr.clone(), msgs.clone(), d.clone());
+        handles.push(std::thread::spawn(move || {
+            let mut out = Vec::new();
+            for _ in 0..per {
+                verif_hooks::start(vec![]);
+                let p = Pok::<CS>::proof_gen(&pk2, &sb2, hdr2.as_deref(), None, Some(&msgs2), Some(&d2));
+                let draws = verif_hooks::stop();
+                out.push((p.map(|x| x.to_bytes()).ok(), draws));
+            }
+            out
+        }));
+    }
+    let mut ts2 = Vec::new();
+    let mut encs2 = Vec::new();
+    for hd in handles {
+        for (pb, draws) in hd.join().unwrap() {
+            if let Some(pb) = pb {
+                // replay on this thread with the recorded tape injected: same bytes <=> the proof is
+                // a function of (inputs, tape) only
+                let inj: Vec<Vec<u8>> = draws.iter().map(|x| x.value.clone()).collect();
+                let (again, _) = proofgen::<CS>(h, &pk, &sb, hdr.as_deref(), None, Some(&msgs), Some(&d), inj);
+                let id = h.last();
+                h.expect(matches!(&again, Out::Ok(p) if p.to_bytes() == pb), "C07.thread_replay", "a proof made on another thread is not reproduced from its recorded tape", &[id]);
+                ts2.push(proof_transcript(&pb, &e, &hidden, &draws));
+                encs2.push(pb);
+            }
+        }
+    }
+    h.expect(ts2.len() == 16 * per, "C07.thread_gen", "proof_gen failed on a worker thread", &[]);
+    ts2.extend(ts);
+    monitors(h, "proof_threads_plus_main", &ts2, &windows, &encs2);
+
+    // (c) another process
+    if let Ok(exe) = std::env::current_exe() {
+        let outp = std::process::Command::new(exe).args(["c07child", h.suite]).output();
+        if let Ok(o) = outp {
+            let text = String::from_utf8_lossy(&o.stdout);
+            let mine = child_values::<CS>();
+            let theirs: Vec<&str> = text.split_whitespace().collect();
+            h.stat("C07.child_process");
+            h.expect(theirs.len() == mine.len() && !theirs.is_empty(), "C07.child", "child process produced no values", &[]);
+            for (a, b) in mine.iter().zip(theirs.iter()) {
+                h.expect(a != b, "C07.cross_process_repeat", "two processes produced the same random artefact", &[]);
+            }
+        }
+    }
+
+    // (d) commitments and blind factors
+    let cm = rand_msgs(h, 3);
+    let cms = BBSplusMessage::messages_to_scalar::<CS>(&cm, CS::API_ID_BLIND).unwrap();
+    let mut tc = Vec::new();
+    let mut cencs = Vec::new();
+    let mut blinds: HashSet<Vec<u8>> = HashSet::new();
+    for _ in 0..n {
+        let (c, draws) = commit::<CS>(h, Some(&cm), vec![]);
+        let id = h.last();
+        if let Some((c, bf)) = c.ok() {
+            let cb = c.to_bytes();
+            let k = (cb.len() - 48) / 32;
+            let ss: Vec<Scalar> = (0..k).map(|i| sc(&cb[48 + 32 * i..80 + 32 * i])).collect();
+            let ch = ss[k - 1];
+            let blind = sc(&bf.to_bytes());
+            let mut bl = vec![ss[0] - blind * ch];
+            for j in 0..cms.len() {
+                bl.push(ss[1 + j] - cms[j].value * ch);
+            }
+            h.expect(blinds.insert(bf.to_bytes().to_vec()), "C07.repeat_blind_factor", "secret_prover_blind repeated", &[id]);
+            h.expect(blind != Scalar::ZERO, "C07.zero_blind_factor", "secret_prover_blind is zero", &[id]);
+            let roles = draws.len() == cms.len() + 2 && draws[0].value[..] == bf.to_bytes()[..] && bl[0].to_be_bytes()[..] == draws[1].value[..];
+            h.expect(roles, "C07.commit_roles", "commit blindings are not the drawn scalars", &[id]);
+            tc.push(Transcript { points: vec![cb[..48].to_vec()], blindings: bl, tape: draws.iter().map(|d| d.value.clone()).collect() });
+            cencs.push(cb);
+        } else {
+            h.expect(false, "C07.commit", "commit failed", &[id]);
+        }
+    }
+    let mut cw: Vec<Vec<u8>> = cms.iter().map(|x| x.value.to_be_bytes().to_vec()).collect();
+    cw.extend(blinds.iter().cloned());
+    monitors(h, "commit_same_inputs", &tc, &cw, &cencs);
+
+    // (e) blind proofs hide the blind factor too; different inputs
+    let mut tb = Vec::new();
+    let mut bencs = Vec::new();
+    let mut bw = Vec::new();
+    let reps = if thorough { 40 } else { 4 };
+    for r in 0..reps {
+        let msgs = rand_msgs(h, 2);
+        let cmsgs = rand_msgs(h, 2);
+        if let Some(run) = honest_issue::<CS>(h, &sk, &pk, None, &msgs, &cmsgs, false) {
+            let dd = if r % 2 == 0 { vec![0usize] } else { vec![] };
+            if let Some(p) = honest_blind_proof::<CS>(h, &pk, &run, None, None, &msgs, &cmsgs, &dd, &[1], false) {
+                let pb = p.to_bytes();
+                bw.push(run.blind.to_vec());
+                bw.push(run.sig.e.to_be_bytes().to_vec());
+                bw.push(g1hex(&run.sig.A));
+                tb.push(Transcript { points: vec![pb[0..48].to_vec(), pb[48..96].to_vec(), pb[96..144].to_vec()], blindings: vec![], tape: vec![] });
+                bencs.push(pb);
+            }
+        }
+    }
+    monitors(h, "blind_proofs", &tb, &bw, &bencs);
+
+    // (f) random key pairs
+    let mut sks: HashSet<Vec<u8>> = HashSet::new();
+    for _ in 0..n {
+        match KeyPair::<BBSplus<CS>>::random() {
+            Ok(kp) => {
+                let (s, p) = kp.into_parts();
+                h.expect(sks.insert(s.to_bytes().to_vec()), "C07.repeat_sk", "KeyPair::random repeated a secret key", &[]);
+                h.expect(s.public_key().to_bytes() == p.to_bytes(), "C07.random_pk", "random key pair is inconsistent", &[]);
+            }
+            Err(_) => h.expect(false, "C07.random_key", "KeyPair::random failed", &[]),
+        }
+        let b = BlindFactor::random().to_bytes().to_vec();
+        h.expect(sks.insert(b), "C07.repeat_blindfactor_random", "BlindFactor::random repeated", &[]);
+    }
+    h.stat_n("C07.random_keys", n as u64);
+    let _ = honest_proof::<CS>;
+}
+
+/// values a fresh process generates from FIXED inputs (must differ between processes)
+pub fn child_values<CS: BbsCiphersuite>() -> Vec<String>
+where
+    CS::Expander: for<'a> ExpandMsg<'a>,
+{
+    let kp = KeyPair::<BBSplus<CS>>::generate(&[7u8; 32], None, None).unwrap();
+    let (sk, pk) = kp.into_parts();
+    let msgs = vec![b"m0".to_vec(), b"m1".to_vec()];
+    let s = Sig::<CS>::sign(Some(&msgs), &sk, &pk, None).unwrap();
+    let p = Pok::<CS>::proof_gen(&pk, &s.to_bytes(), None, None, Some(&msgs), Some(&[0])).unwrap();
+    let (c, b) = Com::<CS>::commit(Some(&msgs)).unwrap();
+    let r = KeyPair::<BBSplus<CS>>::random().unwrap();
+    vec![
+        hex::encode(p.to_bytes()),
+        hex::encode(c.to_bytes()),
+        hex::encode(b.to_bytes()),
+        hex::encode(r.private_key().to_bytes()),
+        hex::encode(BlindFactor::random().to_bytes()),
+    ]
+}
+
+// ---------------------------------------------------------------------------------------------
+
+/// the deterministic conformance battery (every output is compared octet-for-octet with the model)
+fn battery<CS: BbsCiphersuite>(h: &mut H, size: usize)
+where
+    CS::Expander: for<'a> ExpandMsg<'a>,
+{
+    // key generation incl. the exact limits
+    for (il, kl, dl) in [
+        (31usize, 0usize, None), (32, 0, None), (33, 1, None), (64, 65535, None), (32, 65536, None),
+        (32, 2, Some(0usize)), (32, 2, Some(1)), (48, 2, Some(255)), (32, 2, Some(256)), (0, 0, None), (1000, 256, Some(17)),
+    ] {
+        let ikm = h.rng.bytes(il);
+        let info = h.rng.bytes(kl);
+        let dst = dl.map(|n| h.rng.bytes(n));
+        let o = keygen::<CS>(h, &ikm, if kl == 0 && il % 2 == 0 { None } else { Some(&info) }, dst.as_deref());
+        let id = h.last();
+        let must_fail = il < 32 || kl > 65535 || dl.map(|d| d > 255).unwrap_or(false);
+        h.expect(o.is_ok() != must_fail, "C10.keygen_guard", "key generation guard (ikm<32 / key_info>65535 / dst>255) not enforced", &[id]);
+    }
+    // generators: counts, api ids, prefix property
+    let blind_api = [b"BLIND_".as_slice(), CS::API_ID_BLIND].concat();
+    let apis: Vec<Option<Vec<u8>>> = vec![Some(CS::API_ID.to_vec()), Some(CS::API_ID_BLIND.to_vec()), Some(blind_api), None, Some(vec![]), Some(b"other".to_vec())];
+    for (k, api) in apis.iter().enumerate() {
+        let nmax = if k < 3 { size } else { 3 };
+        let big = gens::<CS>(h, api.as_deref(), nmax);
+        let bid = h.last();
+        for kk in [0usize, 1, 2, nmax / 2] {
+            let small = gens::<CS>(h, api.as_deref(), kk);
+            let sid = h.last();
+            if let (Out::Ok(b), Out::Ok(s)) = (&big, &small) {
+                h.expect(b.values[..kk.min(b.values.len())] == s.values[..], "C10.gens_prefix", "the first k generators depend on the requested count", &[bid, sid]);
+            }
+        }
+    }
+    // hash-to-scalar / map-to-scalar
+    for len in [0usize, 1, 32, 255, 256, 1000] {
+        let m = h.rng.bytes(len);
+        let dst = h.rng.bytes([1usize, 16, 255, 256, 300][len % 5]);
+        let o = h2s::<CS>(h, &m, &dst);
+        h.expect(o.is_ok() == (dst.len() <= 255), "C10.h2s_dst", "hash_to_scalar DST length guard", &[h.last()]);
+        mapmsg::<CS>(h, &m, CS::API_ID);
+        mapmsg::<CS>(h, &m, CS::API_ID_BLIND);
+    }
+    // sign / verify / proofs / blind with injected tapes: octets and decisions
+    let (sk, pk) = rand_keypair::<CS>(h);
+    for l in [0usize, 1, 3, 7] {
+        let msgs = rand_msgs(h, l);
+        let hdr = rand_header(h);
+        if let Some(s) = sign::<CS>(h, &sk, &pk, hdr.as_deref(), Some(&msgs)).ok() {
+            let sig = s.bbsPlusSignature().clone();
+            verify::<CS>(h, &pk, &sig, hdr.as_deref(), Some(&msgs));
+            let mut m2 = msgs.clone();
+            m2.push(b"x".to_vec());
+            verify::<CS>(h, &pk, &sig, hdr.as_deref(), Some(&m2));
+            let d = rand_subset(h, l);
+            let ph = rand_header(h);
+            if let Some(p) = honest_proof::<CS>(h, &pk, &s.to_bytes(), hdr.as_deref(), ph.as_deref(), &msgs, &d, true) {
+                let dm = pick_msgs(&msgs, &d);
+                proofverify::<CS>(h, &pk, &p, hdr.as_deref(), None, Some(&dm), Some(&d));
+            }
+            let cm = rand_msgs(h, l % 3);
+            if let Some(run) = honest_issue::<CS>(h, &sk, &pk, hdr.as_deref(), &msgs, &cm, true) {
+                let dc = rand_subset(h, cm.len());
+                honest_blind_proof::<CS>(h, &pk, &run, hdr.as_deref(), ph.as_deref(), &msgs, &cm, &d, &dc, true);
+                let mut bl = run.blind;
+                bl[31] ^= 2;
+                verifyblind::<CS>(h, &pk, &run.sig, hdr.as_deref(), Some(&msgs), Some(&cm), Some(&bl));
+            }
+            if l > 0 {
+                update::<CS>(h, &sig, &sk, &msgs[l - 1], b"updated", l - 1, l);
+            }
+        }
+    }
+    let _ = rand_tape(h, 0);
+}
+
+pub fn c10<CS: BbsCiphersuite>(h: &mut H)
+where
+    CS::Expander: for<'a> ExpandMsg<'a>,
+{
+    let size = if h.tier_thorough { 64 } else { 12 };
+    let seed0 = h.rng.next();
+    let first = h.next_id;
+    h.rng = crate::util::Rng::new(seed0);
+    battery::<CS>(h, size);
+    let seq: Vec<String> = h.lines.iter().filter(|l| l.split(' ').next().unwrap().parse::<u64>().unwrap() >= first).map(|l| l.splitn(2, ' ').nth(1).unwrap().to_string()).collect();
+    // the same battery on 16 threads at once against the sequential answers
+    let suite = h.suite;
+    let thorough = h.tier_thorough;
+    let mut hs = Vec::new();
+    for _ in 0..16 {
+        hs.push(std::thread::spawn(move || {
+            let mut t = H {
+                suite,
+                lines: vec![],
+                fails: vec![],
+                stats: BTreeMap::new(),
+                next_id: first,
+                rng: crate::util::Rng::new(seed0),
+                tier_thorough: thorough,
+                oracle_checks: 0,
+            };
+            battery::<CS>(&mut t, size);
+            let lines: Vec<String> = t.lines.iter().map(|l| l.splitn(2, ' ').nth(1).unwrap().to_string()).collect();
+            (lines, t.fails.len())
+        }));
+    }
+    for (k, hd) in hs.into_iter().enumerate() {
+        match hd.join() {
+            Ok((lines, nf)) => {
+                h.stat("C10.thread_runs");
+                let same = lines == seq;
+                h.expect(same, "C10.threads", &format!("the battery run concurrently (thread {}) differs from the sequential answers", k), &[]);
+                h.expect(nf == 0, "C10.threads_oracle", "oracle failure on a worker thread", &[]);
+            }
+            Err(_) => h.expect(false, "C10.thread_panic", "worker thread panicked", &[]),
+        }
+    }
+}
+
+// ---------------------------------------------------------------------------------------------
+
+pub trait Dual: BbsCiphersuite {
+    type Other: BbsCiphersuite;
+}
+impl Dual for zkryptium::bbsplus::ciphersuites::Bls12381Sha256 {
+    type Other = zkryptium::bbsplus::ciphersuites::Bls12381Shake256;
+}
+impl Dual for zkryptium::bbsplus::ciphersuites::Bls12381Shake256 {
+    type Other = zkryptium::bbsplus::ciphersuites::Bls12381Sha256;
+}
+
+fn other_suite(h: &mut H) -> &'static str {
+    let keep = h.suite;
+    h.suite = if keep == "sha" { "shake" } else { "sha" };
+    keep
+}
+
+pub fn c11_dual<CS: Dual>(h: &mut H)
+where
+    CS::Expander: for<'a> ExpandMsg<'a>,
+    <CS::Other as BbsCiphersuite>::Expander: for<'a> ExpandMsg<'a>,
+{
+    let thorough = h.tier_thorough;
+    let reps = if thorough { 6 } else { 2 };
+    for r in 0..reps {
+        let (sk, pk) = rand_keypair::<CS>(h);
+        let l = 1 + r % 3;
+        let m = r % 3;
+        let msgs = distinct_msgs(h, l);
+        let cmsgs = distinct_msgs(h, m);
+        let hdr = rand_header(h);
+        let ph = rand_header(h);
+        let s = match sign::<CS>(h, &sk, &pk, hdr.as_deref(), Some(&msgs)).ok() { Some(s) => s, None => continue };
+        let sig = s.bbsPlusSignature().clone();
+        let d = rand_subset(h, l);
+        let dm = pick_msgs(&msgs, &d);
+        let p = honest_proof::<CS>(h, &pk, &s.to_bytes(), hdr.as_deref(), ph.as_deref(), &msgs, &d, true);
+        let run = honest_issue::<CS>(h, &sk, &pk, hdr.as_deref(), &msgs, &cmsgs, true);
+        let dc = rand_subset(h, m);
+        let dcm = pick_msgs(&cmsgs, &dc);
+        let bp = run.as_ref().and_then(|run| honest_blind_proof::<CS>(h, &pk, run, hdr.as_deref(), ph.as_deref(), &msgs, &cmsgs, &d, &dc, true));
+        // --- same suite, other interface
+        let v = verifyblind::<CS>(h, &pk, &sig, hdr.as_deref(), Some(&msgs), None, None);
+        h.expect(!v.is_ok(), "C11.sig_plain_to_blind", "plain signature verifies through the blind interface", &[h.last()]);
+        if let Some(p) = &p {
+            let v = blindproofverify::<CS>(h, &pk, p, hdr.as_deref(), ph.as_deref(), Some(l), Some(&dm), None, Some(&d), None);
+            h.expect(!v.is_ok(), "C11.proof_plain_to_blind", "plain proof verifies through the blind interface", &[h.last()]);
+        }
+        if let Some(run) = &run {
+            let all = [msgs.clone(), cmsgs.clone()].concat();
+            let v = verify::<CS>(h, &pk, &run.sig, hdr.as_deref(), Some(&all));
+            h.expect(!v.is_ok(), "C11.sig_blind_to_plain", "blind signature verifies through the plain interface", &[h.last()]);
+        }
+        if let Some(bp) = &bp {
+            let mut ia = d.clone();
+            ia.extend(dc.iter().map(|j| j + l + 1));
+            let v = proofverify::<CS>(h, &pk, bp, hdr.as_deref(), ph.as_deref(), Some(&[dm.clone(), dcm.clone()].concat()), Some(&ia));
+            h.expect(!v.is_ok(), "C11.proof_blind_to_plain", "blind proof verifies through the plain interface", &[h.last()]);
+        }
+        // --- other suite, both interfaces
+        let keep = other_suite(h);
+        let v = verify::<CS::Other>(h, &pk, &sig, hdr.as_deref(), Some(&msgs));
+        h.expect(!v.is_ok(), "C11.sig_cross_suite", "signature verifies under the other ciphersuite", &[h.last()]);
+        if let Some(p) = &p {
+            let pb = p.to_bytes();
+            if let Ok(p2) = Pok::<CS::Other>::from_bytes(&pb) {
+                let v = proofverify::<CS::Other>(h, &pk, &p2, hdr.as_deref(), ph.as_deref(), Some(&dm), Some(&d));
+                h.expect(!v.is_ok(), "C11.proof_cross_suite", "proof verifies under the other ciphersuite", &[h.last()]);
+            }
+        }
+        if let Some(run) = &run {
+            let v = verifyblind::<CS::Other>(h, &pk, &run.sig, hdr.as_deref(), Some(&msgs), Some(&cmsgs), Some(&run.blind));
+            h.expect(!v.is_ok(), "C11.blindsig_cross_suite", "blind signature verifies under the other ciphersuite", &[h.last()]);
+            if m > 0 || r == 0 {
+                let s2 = blindsign::<CS::Other>(h, &sk, &pk, Some(&run.cwp), hdr.as_deref(), Some(&msgs));
+                h.expect(!s2.is_ok(), "C11.commit_cross_suite", "a commitment made under one ciphersuite is accepted by the other", &[h.last()]);
+            }
+        }
+        if let Some(bp) = &bp {
+            if let Ok(p2) = Pok::<CS::Other>::from_bytes(&bp.to_bytes()) {
+                let v = blindproofverify::<CS::Other>(h, &pk, &p2, hdr.as_deref(), ph.as_deref(), Some(l), Some(&dm), Some(&dcm), Some(&d), Some(&dc));
+                h.expect(!v.is_ok(), "C11.blindproof_cross_suite", "blind proof verifies under the other ciphersuite", &[h.last()]);
+            }
+        }
+        h.suite = keep;
+    }
+    // --- generator families: prefix property, duplicate-, identity-, P1-freeness, disjointness
+    let n = if thorough { 1024 } else { 64 };
+    let blind_api = [b"BLIND_".as_slice(), CS::API_ID_BLIND].concat();
+    let oblind_api = [b"BLIND_".as_slice(), <CS::Other as BbsCiphersuite>::API_ID_BLIND].concat();
+    let mut fams: Vec<(String, Vec<Vec<u8>>)> = Vec::new();
+    for (nm, api) in [("plain", CS::API_ID.to_vec()), ("blind", CS::API_ID_BLIND.to_vec()), ("BLIND_", blind_api)] {
+        if let Some(g) = gens::<CS>(h, Some(&api), n).ok() {
+            let gid = h.last();
+            let enc: Vec<Vec<u8>> = g.values.iter().map(g1hex).collect();
+            let p1 = g1hex(&g.g1_base_point);
+            let id = bls12_381_plus::G1Affine::identity().to_compressed().to_vec();
+            let set: HashSet<&Vec<u8>> = enc.iter().collect();
+            h.expect(set.len() == enc.len(), "C11.gen_dup", "generator set contains a repeated point", &[gid]);
+            h.expect(!set.contains(&id), "C11.gen_identity", "generator set contains the identity", &[gid]);
+            h.expect(!set.contains(&p1), "C11.gen_p1", "generator set contains the fixed base point P1", &[gid]);
+            for k in [0usize, 1, 2, 7, n / 2, n - 1] {
+                if let Some(s) = gens::<CS>(h, Some(&api), k).ok() {
+                    let e2: Vec<Vec<u8>> = s.values.iter().map(g1hex).collect();
+                    h.expect(e2[..] == enc[..k], "C11.gen_prefix", "create(n)[..k] != create(k)", &[gid, h.last()]);
+                }
+            }
+            fams.push((format!("{}:{}", h.suite, nm), enc));
+        }
+    }
+    let keep = other_suite(h);
+    for (nm, api) in [("plain", <CS::Other as BbsCiphersuite>::API_ID.to_vec()), ("blind", <CS::Other as BbsCiphersuite>::API_ID_BLIND.to_vec()), ("BLIND_", oblind_api)] {
+        if let Some(g) = gens::<CS::Other>(h, Some(&api), n.min(64)).ok() {
+            fams.push((format!("{}:{}", h.suite, nm), g.values.iter().map(g1hex).collect()));
+        }
+    }
+    h.suite = keep;
+    for a in 0..fams.len() {
+        for b in a + 1..fams.len() {
+            let sa: HashSet<&Vec<u8>> = fams[a].1.iter().collect();
+            let inter = fams[b].1.iter().any(|x| sa.contains(x));
+            h.stat("C11.family_pairs");
+            h.expect(!inter, "C11.gen_disjoint", &format!("generator families {} and {} share an element", fams[a].0, fams[b].0), &[]);
+        }
+    }
+}
+
+pub fn c11<CS: BbsCiphersuite>(h: &mut H)
+where
+    CS::Expander: for<'a> ExpandMsg<'a>,
+{
+    // dispatch on the concrete suite to obtain its dual
+    if h.suite == "sha" {
+        c11_dual::<zkryptium::bbsplus::ciphersuites::Bls12381Sha256>(h)
+    } else {
+        c11_dual::<zkryptium::bbsplus::ciphersuites::Bls12381Shake256>(h)
+    }
+    let _ = std::marker::PhantomData::<CS>;
+}
+
+pub fn corpus<CS: BbsCiphersuite>(_h: &mut H)
+where
+    CS::Expander: for<'a> ExpandMsg<'a>,
+{
+}
+
+pub fn pk_of(b: &[u8]) -> BBSplusPublicKey {
+    BBSplusPublicKey::from_bytes(b).unwrap()
+}
